@@ -14,6 +14,7 @@ def gen_case(g, prop):
     output = g.choice(['abs', 'abs', 'rel', 'nested'])
     if prop in ('C13', 'C14'):
         pats = [g.choice(T.PATTERNS) for _ in range(g.choice([0, 0, 1, 2, 3]))]
+    if prop == 'C14': st['sep'] = g.choice(['.', '.', '/', '::', '-', 'sub'])     # the title of the top index is the prefix under every separator
     if prop == 'C15':
         st['auto_exclude'] = g.random() < 0.3; st['recursive'] = g.random() < 0.85
         pats = [g.choice(T.PATTERNS) for _ in range(g.randint(0, 5))]
@@ -26,7 +27,7 @@ def gen_case(g, prop):
         if g.random() < 0.3:   # several patterns hitting adjacent siblings / every cmake file of a directory
             pats += g.choice([['aa/', 'ab/', 'ac/'], ['e1.cmake', 'e2.cmake', 'e3.cmake'], ['*.cmake'], ['a.cmake', 'b.cmake', 'c.cmake']])
     if prop == 'C12':
-        st.update(sep=g.choice(['.', '/', '::', '-']), ext_titles=g.random() < 0.5, ext_modules=g.random() < 0.5,
+        st.update(sep=g.choice(['.', '/', '::', '-', '.', '/', '::', 'a.cmake', 'root.cmake', 'sub']), ext_titles=g.random() < 0.5, ext_modules=g.random() < 0.5,
                   headers=g.choice([None, ['=', '*'], ['~'], ['+', '-', '^']]), recursive=True, auto_exclude=g.random() < 0.5)
     if prop == 'C18':
         output = g.choice(['abs', 'rel', 'nested', 'prepopulated', None, None])
@@ -209,7 +210,7 @@ def check_case(prop, case, sb, drv, key, out, n_orders=3):
                 got = T.parse_toctree(files[p])
                 if got != toc: vios.append(dict(kind='toctree entries', index=p, expected=toc, real=got)); break
                 d = os.path.dirname(p)
-                want_title = pre if d == '' else pre + '.' + d
+                want_title = pre if d == '' else pre + st.get('sep', '.') + d
                 if T.title_of(files[p]) != want_title:
                     vios.append(dict(kind='index title', index=p, expected=want_title, real=T.title_of(files[p]))); break
             # closure and reachability on the REAL output alone
@@ -324,6 +325,62 @@ def check_case(prop, case, sb, drv, key, out, n_orders=3):
     out.sample(dict(suite='trees', key=key, inputs=[dict(i, children='...') if 'children' in i else i for i in case['inputs']],
                     tree=_names(inp.get('children', [])), settings={k: v for k, v in st.items() if v not in (None, False)},
                     patterns=case.get('patterns'), output=case.get('output'), written=sorted(files)[:12]))
+
+
+def documenter_defaults_suite(out, drv):
+    """`Documenter(file, title=None, module_name=None)`: the title defaults to the file argument, the module name to the title
+    (an empty string is a value, not "absent"); the model's pipeline is called with the names the defaults must yield"""
+    import contextlib, io
+    src = '#[[[\n# doc\n#]]\nfunction(f a)\nendfunction()\n'
+    with impl.Sandbox() as sb:
+        path = sb.write('d.cmake', src)
+        for n, (args, (t, m)) in enumerate([((), (path, path)), (('Ttl',), ('Ttl', 'Ttl')), (('', None), ('', '')), (('A', 'B'), ('A', 'B')),
+                                            ((None, 'B'), (path, 'B')), (('A', ''), ('A', ''))]):
+            with impl.capture_logs(), contextlib.redirect_stderr(io.StringIO()), contextlib.redirect_stdout(io.StringIO()):
+                real = str(impl.Documenter(path, *args, settings=impl.make_settings({}, headers=['#'])).process())
+            mo = drv.run([dict(op='pipeline', cfg={}, headers=['#'], title=t, mod=m, src=src)])[0]
+            out.traces_validated += 1; out.note_case(('C12', 'documenter-defaults', n), True)
+            rec = dict(suite='documenter-defaults', key=('C12', 'documenter-defaults', n), args=[repr(a) for a in args])
+            if mo.get('rst') != real:
+                out.disagreements.append(dict(rec, detail=dict(kind='Documenter defaults', model=mo.get('rst'), real=real)))
+            lines = real.split('\n')
+            if lines[1:4] != ['#' * len(t), t, '#' * len(t)] or ('.. module:: ' + m) not in lines:
+                out.violations.append(dict(rec, detail=dict(kind='title/module name do not follow the documented defaults', expected_title=t, expected_module=m,
+                                                            real=lines[:8]), model_agrees=mo.get('rst') == real))
+    out.suites.append(dict(name='documenter-defaults', cases=6))
+
+
+def odd_inputs_suite(prop, out, drv):
+    """inputs that are not there or are no regular file/directory (FIFO), alone and between healthy inputs of one run:
+    nothing is written for them, a missing path ends the run with status -1 after the earlier inputs were documented"""
+    good_f = dict(kind='file', name='ok.cmake', content='function(ok_f a)\nendfunction()\n', spelled='abs')
+    good_d = dict(kind='dir', name='gd', spelled='abs', children=[dict(name='x.cmake', content='function(x_f)\nendfunction()\n')])
+    miss = dict(kind='missing', name='nothing_here.cmake', spelled='abs')
+    fifo = dict(kind='special', name='pipe.cmake', spelled='abs')
+    st = dict(recursive=True, auto_exclude=True, prefix=None, sep='.', ext_titles=False, ext_modules=False, headers=None, cfg=None)
+    for n, (inputs, output) in enumerate([([miss], 'abs'), ([miss], None), ([fifo], 'abs'), ([fifo], None), ([good_f, miss, good_d], 'abs'),
+                                          ([good_d, fifo, good_f], 'abs'), ([good_d, fifo, good_f], None), ([fifo, miss], 'abs')]):
+        case = dict(inputs=copy.deepcopy(inputs), settings=dict(st), patterns=[], output=output)
+        with impl.Sandbox() as sb:
+            real = T.run_real(sb.dir, case, variant='odd')
+        mo = drv.run([T.model_request(case, real['abs_inputs'])])[0]
+        out.traces_validated += 1; out.note_case((prop, 'odd', n), True); out.dist['odd-inputs'] += 1
+        rec = dict(suite='odd-inputs', key=(prop, 'odd', n), case=case)
+        mfiles = T.model_files(mo)
+        if mo['status'] != real['status'] or mfiles != real['files'] or mo['stdout'] != real['stdout']:
+            out.disagreements.append(dict(rec, detail=dict(kind='odd inputs', model=dict(status=mo['status'], files=sorted(mfiles), stdout=mo['stdout'][:200]),
+                                                           real=dict(status=real['status'], files=sorted(real['files']), stdout=real['stdout'][:200]))))
+        has_missing = any(i['kind'] == 'missing' for i in inputs)
+        if has_missing and real['status'] == 'ok':
+            out.violations.append(dict(rec, detail=dict(kind='a path that does not exist did not end the run with a failure status'), model_agrees=False))
+        if real['changed_outside_output']:
+            out.violations.append(dict(rec, detail=dict(kind='files outside the output directory changed', changed=list(real['changed_outside_output'].items())[:5]), model_agrees=True))
+        if output is None and real['files']:
+            out.violations.append(dict(rec, detail=dict(kind='files written although no output directory was given'), model_agrees=True))
+        if all(i['kind'] in ('missing', 'special') for i in inputs) and (real['files'] or real['stdout'].strip()):
+            out.violations.append(dict(rec, detail=dict(kind='something was written or printed for an input that is no CMake file or directory',
+                                                        files=sorted(real['files']), stdout=real['stdout'][:200]), model_agrees=True))
+    out.suites.append(dict(name='odd-inputs', cases=8))
 
 
 def _names(ch):
